@@ -328,7 +328,7 @@ pub fn run(ctx: &'static Ctx) -> (&'static str, Value, Vec<&'static str>) {
     {
         let mk = |runs: Vec<(u8, u16)>, per_record: usize, level: u32, moments: u8| {
             let total: usize = runs.iter().map(|r| r.1 as usize).sum();
-            c01::Case { runs, splits: (1..total).filter(|k| per_record > 0 && k % per_record == 0).collect(), meta: Some((1, 0)), moments, gates: 2, vol: 0, level }
+            c01::Case { runs, splits: (1..total).filter(|k| per_record > 0 && k % per_record == 0).collect(), meta: Some((1, 0)), moments, gates: 2, vol: 0, level, status_mode: 0 }
         };
         let extremes: Vec<c01::Case> = vec![
             mk(vec![(1, 721)], 120, 0, 1),
